@@ -1,6 +1,7 @@
 package props
 
 import (
+	"net"
 	"bytes"
 	"fmt"
 	"io"
@@ -40,7 +41,7 @@ func explicitNonceLen(version, suite uint16) int {
 
 // C28 — GetOutKeystream returns the keystream of the next record.
 func TestC28(t *testing.T) {
-	r := mon.New("C28", "every AEAD suite x {TLS 1.2, 1.3} (suites forced through the server hooks where needed) x keystream lengths {0,1,15,16,17,1000,16384,20000} x sequence positions (0..40 records already written, a different number read, so that in/out sequence numbers differ; a third of the runs jump to 2^16-1 / 2^24 / 2^32 / 2^48 / 2^63-5 with a hook) x dynamic record sizing on/off: ks=GetOutKeystream(n), then Write(p); the first application-data record tapped afterwards must satisfy ciphertext[explicit nonce:][:m] == p[:m] XOR ks[:m], m=min(n, record plaintext length); the peer reads p unchanged and later traffic still works; non-AEAD suites must return an error. distinct = (version, suite, n, position bucket)")
+	r := mon.New("C28", "every AEAD suite x {TLS 1.2, 1.3} (suites forced through the server hooks where needed) x keystream lengths {0,1,15,16,17,1000,16384,20000} x sequence positions (0..40 records already written, a different number read, so that in/out sequence numbers differ; a third of the runs jump to 2^16-1 / 2^24 / 2^32 / 2^48 / 2^63-5 with a hook) x dynamic record sizing on/off: ks=GetOutKeystream(n), then Write(p); the first application-data record tapped afterwards must satisfy ciphertext[explicit nonce:][:m] == p[:m] XOR ks[:m], m=min(n, record plaintext length); the peer reads p unchanged and later traffic still works; non-AEAD suites must return an error; and, against the independent OpenSSL server, the same equation after one and two completed renegotiations (TLS 1.2 AES-GCM / ChaCha20). distinct = (version, suite, n, position bucket)")
 	defer r.Finish(t)
 	type combo struct {
 		v, suite uint16
@@ -246,6 +247,161 @@ func TestC28(t *testing.T) {
 		}
 	})
 	r.Floor("keystream_bytes_compared", 50000)
+	// after a completed renegotiation (TLS 1.2; the independent OpenSSL server, if present,
+	// renegotiates on request): the out-sequence number starts again, and the keystream handed
+	// out must still be the one of the next record
+	if peer.OpenSSLAvailable() {
+		type rj struct {
+			tg     Target
+			cipher string
+			suite  uint16
+			rounds int
+		}
+		var rjobs []rj
+		ciphers := []struct {
+			name string
+			id   uint16
+		}{{"ECDHE-RSA-AES128-GCM-SHA256", tls.TLS_ECDHE_RSA_WITH_AES_128_GCM_SHA256}, {"ECDHE-RSA-AES256-GCM-SHA384", tls.TLS_ECDHE_RSA_WITH_AES_256_GCM_SHA384},
+			{"AES128-GCM-SHA256", tls.TLS_RSA_WITH_AES_128_GCM_SHA256}, {"ECDHE-RSA-CHACHA20-POLY1305", tls.TLS_ECDHE_RSA_WITH_CHACHA20_POLY1305_SHA256}}
+		names := []string{"Chrome_120", "Golang"}
+		if mon.Thorough() {
+			names = append(names, "Firefox_120", "Chrome_102", "Firefox_105", "Safari_16_0", "IOS_14", "Edge_106")
+		}
+		for ni, pn := range names {
+			tg := Target{Name: "Golang", ID: tls.HelloGolang}
+			if pn != "Golang" {
+				p := ParrotByName(pn)
+				tg = Target{Name: p.Name, ID: p.ID}
+			}
+			for ci, c := range ciphers {
+				rjobs = append(rjobs, rj{tg, c.name, c.id, 1 + (ni+ci)%2})
+			}
+		}
+		renegOK := 0
+		for i, j := range rjobs {
+			func() {
+				rg := Sub("C28reneg", i)
+				srv, err := peer.StartOpenSSLInteractive("rsa", "-tls1_2", "-cipher", j.cipher)
+				if err != nil {
+					r.Count("openssl_start_failed", 1)
+					return
+				}
+				defer srv.Stop()
+				raw, err := net.DialTimeout("tcp", srv.Addr, 5*time.Second)
+				if err != nil {
+					r.Count("openssl_dial_failed", 1)
+					return
+				}
+				rc := &peer.RecConn{Conn: raw}
+				defer rc.Close()
+				rc.SetDeadline(time.Now().Add(peer.IODeadline))
+				ccfg := peer.ClientConfig("example.test")
+				ccfg.OmitEmptyPsk = true
+				ccfg.Renegotiation = tls.RenegotiateFreelyAsClient // (parrots switch it on themselves; HelloGolang needs it here)
+				u := tls.UClient(rc, ccfg, j.tg.ClientID())
+				if err := u.Handshake(); err != nil {
+					r.Count("openssl_handshake_failed", 1)
+					return
+				}
+				if u.ConnectionState().CipherSuite != j.suite {
+					r.Count("openssl_other_suite", 1)
+					return
+				}
+				sig := map[string]string{"kind": "keystream_mismatch", "suite": fmt.Sprintf("%04x", j.suite), "phase": "after-renegotiation"}
+				check := func(phase string) bool {
+					n := []int{1, 16, 100, 1000}[rg.Intn(4)]
+					p := randBytes(rg, n+rg.Intn(50))
+					ks, err := u.GetOutKeystream(n)
+					if err != nil {
+						r.Violation(map[string]string{"kind": "keystream_error", "suite": fmt.Sprintf("%04x", j.suite)}, fmt.Sprintf("%s %s %s: GetOutKeystream(%d): %v", j.tg.Name, j.cipher, phase, n, err), nil)
+						return false
+					}
+					before, _ := rc.Snapshot()
+					if _, err := u.Write(p); err != nil {
+						r.Count("openssl_write_failed", 1)
+						return false
+					}
+					after, _ := rc.Snapshot()
+					recs, _, _ := wire.SplitRecords(after[len(before):])
+					if len(recs) == 0 || recs[0].Type != 23 {
+						r.Count("openssl_no_record_tapped", 1)
+						return false
+					}
+					ct := recs[0].Body
+					en := explicitNonceLen(tls.VersionTLS12, j.suite)
+					m := min(n, len(p), len(ct)-en-16)
+					for k := 0; k < m; k++ {
+						if ct[en+k] != p[k]^ks[k] {
+							r.Violation(sig, fmt.Sprintf("%s vs OpenSSL %s, %s: byte %d of the next record's ciphertext is not plaintext XOR GetOutKeystream (n=%d)", j.tg.Name, j.cipher, phase, k, n), map[string]any{"record": mon.Hex(ct[:min(len(ct), 64)]), "keystream": mon.Hex(ks[:min(len(ks), 64)])})
+							return false
+						}
+					}
+					return true
+				}
+				if !check("before any renegotiation") {
+					return
+				}
+				for round := 1; round <= j.rounds; round++ {
+					// ask s_server to renegotiate; the client handles the HelloRequest inside Read
+					io.WriteString(srv.Stdin, "R\n")
+					got := make(chan error, 1)
+					marker := fmt.Sprintf("after-renegotiation-%d\n", round)
+					go func() {
+						buf := make([]byte, 256)
+						var acc []byte
+						for !bytes.Contains(acc, []byte(marker)) {
+							n, err := u.Read(buf)
+							acc = append(acc, buf[:n]...)
+							if err != nil {
+								got <- err
+								return
+							}
+						}
+						got <- nil
+					}()
+					// the renegotiation is over when the client's flight has grown and then stayed the
+					// same for a while (a loaded machine only makes this take longer)
+					c0, _ := rc.Snapshot()
+					grown, stable, last := false, 0, len(c0)
+					for w := 0; w < 400 && stable < 12; w++ {
+						time.Sleep(15 * time.Millisecond)
+						c1, _ := rc.Snapshot()
+						if len(c1) > len(c0)+200 {
+							grown = true
+						}
+						if len(c1) == last && grown {
+							stable++
+						} else {
+							stable = 0
+						}
+						last = len(c1)
+					}
+					io.WriteString(srv.Stdin, marker)
+					select {
+					case err := <-got:
+						if err != nil {
+							r.Count("openssl_renegotiation_failed", 1)
+							r.Note(fmt.Sprintf("%s vs OpenSSL %s: renegotiation %d: %v", j.tg.Name, j.cipher, round, err))
+							return
+						}
+					case <-time.After(20 * time.Second):
+						r.Count("openssl_renegotiation_timeout", 1)
+						return
+					}
+					if !check(fmt.Sprintf("after renegotiation %d", round)) {
+						return
+					}
+					renegOK++
+					r.Case(fmt.Sprintf("reneg|%s|%04x|%d", family(j.tg.Name), j.suite, round), true)
+				}
+			}()
+		}
+		peer.OpenSSLCleanup()
+		r.Count("keystream_checked_after_renegotiation", int64(renegOK))
+		r.Floor("keystream_checked_after_renegotiation", 6)
+	} else {
+		r.Note("no openssl binary: the after-renegotiation keystream checks did not run")
+	}
 	r.Floor("non_aead_refused", 5)
 }
 
